@@ -34,26 +34,66 @@ pub struct ChannelClosed;
 impl<T> Sender<T> {
     pub fn send(&mut self, value: T) -> Result<(), ChannelFull> {
         while let Some(value) = self.pending_messages.pop() {
+            #[cfg(fastrace_verif)]
+            self.verif_before_push(true);
             if let Err(PushError::Full(value)) = self.tx.push(value) {
                 self.pending_messages.push(value);
+                #[cfg(fastrace_verif)]
+                crate::verif::point(crate::verif::Point::Dropped);
                 return Err(ChannelFull);
             }
         }
 
+        #[cfg(fastrace_verif)]
+        if self.verif_before_push(false) == 0 {
+            crate::verif::point(crate::verif::Point::Dropped);
+        }
         self.tx.push(value).map_err(|_| ChannelFull)
     }
 
     pub fn force_send(&mut self, value: T) {
         while let Some(value) = self.pending_messages.pop() {
+            #[cfg(fastrace_verif)]
+            self.verif_before_push(true);
             if let Err(PushError::Full(value)) = self.tx.push(value) {
                 self.pending_messages.push(value);
                 break;
             }
         }
 
+        #[cfg(fastrace_verif)]
+        self.verif_before_push(false);
         if let Err(PushError::Full(value)) = self.tx.push(value) {
             self.pending_messages.push(value);
+            #[cfg(fastrace_verif)]
+            crate::verif::point(crate::verif::Point::Parked);
         }
+    }
+
+    /// Verification hook: a scheduling point, then a log entry with the outcome the push that
+    /// follows will have (nothing else runs between the two under the harness).
+    #[cfg(fastrace_verif)]
+    fn verif_before_push(&mut self, replay: bool) -> usize {
+        if !crate::verif::enabled() {
+            return usize::MAX;
+        }
+        crate::verif::point(crate::verif::Point::RingPush { replay });
+        let free = self.tx.slots();
+        crate::verif::point(crate::verif::Point::RingPushed {
+            ok: free > 0,
+            replay,
+        });
+        free
+    }
+
+    #[cfg(fastrace_verif)]
+    pub(crate) fn verif_free_slots(&self) -> usize {
+        self.tx.slots()
+    }
+
+    #[cfg(fastrace_verif)]
+    pub(crate) fn verif_parked(&self) -> usize {
+        self.pending_messages.len()
     }
 }
 
@@ -67,8 +107,18 @@ impl<T> Drop for Sender<T> {
 
 impl<T> Receiver<T> {
     pub fn try_recv(&mut self) -> Result<Option<T>, ChannelClosed> {
+        #[cfg(fastrace_verif)]
+        crate::verif::point(crate::verif::Point::BeforePop);
         match self.rx.pop() {
             Ok(val) => Ok(Some(val)),
+            #[cfg(fastrace_verif)]
+            Err(_) if {
+                crate::verif::point(crate::verif::Point::RecvEmptyBeforeAbandonCheck);
+                false
+            } =>
+            {
+                unreachable!()
+            }
             Err(_) if self.rx.is_abandoned() => Err(ChannelClosed),
             Err(_) => Ok(None),
         }
